@@ -12,7 +12,8 @@ MANIFEST = {
                   "and sub-sample map; DecryptSampleCbcs inverts EncryptSampleCbcs for every crypt:skip pattern and size whenever "
                   "D inverts E on 16-byte blocks; RemoveEncryptionBoxes (repaired text) keeps exactly the non-protection boxes in "
                   "order and counts exactly the removed bytes; for every single-traf fragment with arbitrary opaque boxes, encrypt -> "
-                  "encode/decode -> decrypt restores the clear children, data offset and mdat position. Explored, not proved: that the "
+                  "encode/decode -> decrypt restores the clear children, data offset, mdat position AND every sample byte (both schemes, any protection "
+                  "function: AVC/HEVC/audio); DecryptInit(InitProtect init) = init; third-party cenc fragments keep sample count/sizes, offsets shift by the removed bytes. Explored, not proved: that the "
                   "Go code behaves like the model (correspondence), senc/saiz/saio and sample-entry (de)serialisation "
                   "(round trips through real files, byte comparison with the clear file). DecryptInit(InitProtect init) = init is a theorem on the abstract init.",
     "level_note": "Trusted: Coq kernel, extraction, OCaml/Go glue. Modelled, not verified: crypto/aes, cipher CTR/CBC, box "
